@@ -22,7 +22,9 @@ def pat_pool():
     ch = lambda t, *p: step("child", t, *p)
     a, b, c_ = t_name("a"), t_name("b"), t_name("c")
     return [P(ch(a)), P(ch(b)), P(ch(c_)), P(ch(T_ANY)), bin_("|", P(ch(a)), P(ch(b))), bin_("|", P(ch(b)), P(ch(c_))),
-            P(ch(T_ANY, P(step("attribute", t_name("x"))))), P(ch(T_TEXT)), P(ch(a), ch(b)), P(ch(T_ANY), ch(b)), P(ch(b, P(ch(T_ANY))))]
+            P(ch(T_ANY, P(step("attribute", t_name("x"))))), P(ch(T_TEXT)), P(ch(a), ch(b)), P(ch(T_ANY), ch(b)), P(ch(b, P(ch(T_ANY)))),
+            # patterns that match attributes (the current node may be one: 7.7 counts it, and no other attribute, among the nodes before it)
+            P(step("attribute", T_ANY)), bin_("|", P(ch(T_ANY)), P(step("attribute", T_ANY))), bin_("|", P(step("attribute", t_name("x"))), P(ch(b))), P(ch(T_NODE))]
 
 
 def gen_instr(rng):
